@@ -21,7 +21,7 @@ EXPLANATION = (
     'error code raised under each rejection condition (resume flag, lease without publisher, on_setup raising, '
     'RESUME frame), on_setup called once with the fields of the frame, the dispatch table entries, the reply on the '
     'stream id of the offending frame. Not decided: wire order as observed at run time.')
-EXPLANATION_ADDED = ('The head insertion puts SETUP in only after the queue was seen empty, keeps what was queued before, and is used by connect() only (shared C05.b). (e) the configuration attributes the constructor fills from its arguments and that connection set-up reads (setup payload, MIME types, keep-alive and lifetime periods, lease flag) are assigned nowhere else, so every reconnect states the same configuration.')
+EXPLANATION_ADDED = ('The head insertion puts SETUP in only after the queue was seen empty, keeps what was queued before, and is used by connect() only (shared C05.b). (e) the configuration attributes the constructor fills from its arguments and that connection set-up reads (setup payload, MIME types, keep-alive and lifetime periods, lease flag) are assigned nowhere else, so every reconnect states the same configuration. (round 15) neither the conversion nor the two SETUP period fields truncate a floating-point period: int / floor / trunc / ceil applied directly to an expression of total_seconds(), a true division or a float constant is reported (1.001 s would be announced as 1000 ms); round(), to_milliseconds() and integer arithmetic on the timedelta are accepted.')
 EXPLANATION = EXPLANATION.replace(' Not decided', ' ' + EXPLANATION_ADDED + ' Not decided', 1) \
     if ' Not decided' in EXPLANATION else EXPLANATION + ' ' + EXPLANATION_ADDED
 ASSUMPTIONS = COMMON_ASSUMPTIONS
@@ -42,6 +42,9 @@ def term_to_lin(t, period_term, kind_out=None):
         return Lin.k(Fraction(t[1]).limit_denominator(10 ** 9)), False
     if k == 'attr' and strip_epoch(t[1]) == period_term and t[2] in (D, S, U):
         return Lin.atom(t[2]), False
+    if k == 'pure' and t[1] in ('int', 'floor', 'trunc', 'ceil', 'round', 'float') and t[2] is None and \
+            len(t) > 3 and isinstance(t[3], tuple) and t[3]:
+        return term_to_lin(t[3][0], period_term)
     if k == 'pure' and t[1] == 'total_seconds':
         v, dur = term_to_lin(t[2], period_term)
         if dur:
@@ -88,6 +91,54 @@ def term_to_lin(t, period_term, kind_out=None):
     raise ValueError('term %s' % fmt_term(t))
 
 
+TRUNCATING = ('int', 'floor', 'trunc', 'ceil')
+
+
+def _float_truncation(t):
+    """A truncating conversion (int / floor / trunc / ceil) applied directly to a floating-point expression of a
+    period (total_seconds(), true division): 1.001 s * 1000 is 1000.9999999999999 and truncates to 1000 ms, so the
+    value put on the wire is not the configured one. round(), to_milliseconds() and pure integer arithmetic on the
+    timedelta's integer fields are exact. Returns the offending sub-term or None."""
+    t = strip_epoch(t)
+
+    def is_float(x):
+        if not isinstance(x, tuple) or not x:
+            return False
+        if x[0] == 'pure' and x[1] == 'total_seconds':
+            return True
+        if x[0] == 'op' and x[1] == 'Div':
+            return True
+        if x[0] == 'const':
+            return isinstance(x[1], float)
+        if x[0] == 'call':
+            name = str(x[1]).split('.')[-1]
+            if name in ('round', 'to_milliseconds') or name in TRUNCATING:
+                return False
+            return name == 'float'
+        if x[0] == 'op':
+            return any(is_float(y) for y in x[2:])
+        return False
+
+    def walk(x):
+        if not isinstance(x, tuple) or not x:
+            return None
+        if x[0] == 'call' and str(x[1]).split('.')[-1] in TRUNCATING:
+            args = [a for a in x[2] if not (isinstance(a, tuple) and a and a[0] == 'kw')]
+            if args and is_float(strip_epoch(args[0])):
+                return x
+        if x[0] == 'pure' and x[1] in TRUNCATING and len(x) > 3 and isinstance(x[3], tuple):
+            if x[2] is None and x[3] and is_float(strip_epoch(x[3][0])):
+                return x
+        for y in x:
+            if isinstance(y, tuple):
+                r = walk(y)
+                if r is not None:
+                    return r
+        return None
+
+    return walk(t)
+
+
 def rule_a(ctx, rule='C16.a'):
     rep = ctx.report
     f = ctx.repo.func('rsocket.datetime_helpers:to_milliseconds')
@@ -107,8 +158,12 @@ def rule_a(ctx, rule='C16.a'):
         except ValueError as e:
             raise AnalysisError('%s: cannot lower the conversion expression to a linear form (%s): %s' % (
                 rule, e, fmt_term(p.value.term)))
+        bad = _float_truncation(p.value.term)
         if dur:
             ok, detail = False, 'returns a duration, not a number of milliseconds'
+        elif bad is not None:
+            ok = False
+            detail = 'truncates a floating-point number of milliseconds (%s): 1.001 s becomes 1000 ms' % fmt_term(bad)
         elif v != want:
             ok = False
             detail = 'returns %s, expected %s (milliseconds of the period)' % (v, want)
@@ -196,9 +251,9 @@ def rule_c(ctx):
     want = {
         'flags_lease': lambda t: _only_attr(t, '_honor_lease'),
         'keep_alive_milliseconds': lambda t: _mentions_attr(t, '_keep_alive_period') and not _mentions_attr(
-            t, '_max_lifetime_period'),
+            t, '_max_lifetime_period') and _float_truncation(t) is None,
         'max_lifetime_milliseconds': lambda t: _mentions_attr(t, '_max_lifetime_period') and not _mentions_attr(
-            t, '_keep_alive_period'),
+            t, '_keep_alive_period') and _float_truncation(t) is None,
         'data_encoding': lambda t: _only_attr(t, '_data_encoding'),
         'metadata_encoding': lambda t: _only_attr(t, '_metadata_encoding'),
         'major_version': lambda t: t == ('const', 1),
